@@ -3,6 +3,38 @@
 import json, subprocess
 
 CHECKS = {
+ "C01": dict(category="exploration", design="§3 C01",
+   text="All well-typed expression trees with up to 2 (quick) / 3 (thorough, reduced leaves) operator nodes over every operator of the specification's table and operand type, leaves = literals, variables and effectful calls (expose operand order and short-circuiting), NaN/Inf operands; each printed with minimal and full parentheses in tight-argument, spaced right-hand-side and grouped contexts; run on the real parser+evaluator and compared (effect trace + result class) with an independent reference interpreter written from docs/spec.md.",
+   note="Operand values restricted to the leaf alphabet; IEEE arithmetic itself is Go's float64 on both sides; reference interpreter validated against the 57 documented example outputs.",
+   technique="bounded-exhaustive enumeration of expression trees x layouts via the choice-sequence explorer, differential against a reference interpreter"),
+ "C04": dict(category="exploration", design="§3 C04",
+   text="Complete matrix target type x value x context: all types to nesting depth 3 (quick) / 4 (thorough), values = variable, literal, literal with basic/composite variable, empty literals, constant expressions, call results, in every assignability context (assignment, element/field store, fixed/variadic/generic parameter, return, inferred declaration, condition, range, index, slice bound, assertion source/target, literal element) plus every operator x operand type pair. One program per cell; the parser must accept iff the reference typing rules accept, accepted programs must print the reference's typeof.",
+   note="Cells the specification does not settle (non-literal constant expressions converting to any-based composites; typeof of untyped empties; empty literal next to a variable-typed composite) are counted and not judged. Reference rules written from docs/spec.md.",
+   technique="exhaustive enumeration of a finite typing matrix against reference typing rules"),
+ "C09": dict(category="exploration", design="§3 C09",
+   text="All alias histories of up to 3 (quick) / 4 (thorough) steps over 8 value kinds x ~25 alias-creating forms (declaration, assignment, parameter, return, literal element, element/field store, any wrap, loop variable, slice, concatenation, repetition, err/errmsg in both directions) and update forms; every live name printed after every step and compared with the reference interpreter (immutable basic values, reference composites).",
+   note="Assignment targets are effect-free (target/value evaluation order is unspecified).",
+   technique="bounded-exhaustive enumeration of operation histories via the choice-sequence explorer, differential against a reference interpreter"),
+ "C10": dict(category="exploration", design="§3 C10",
+   text="All nestings to depth 2 (quick) / 3 (thorough, 6-deviation bounded) of if/else-if/while/for x4/function call with one scoping or control feature per block (shadowing, outer update, local, conditional/final break, conditional/final return), all numeric ranges over {-2..3}^3 incl. bounds modified in the body, collection ranges mutated in the body, recursion; trace compared with the reference interpreter.",
+   note="Programs beyond the nesting bound are not explored.",
+   technique="bounded-exhaustive enumeration of program structures via the choice-sequence explorer, differential against a reference interpreter"),
+ "C11": dict(category="exploration", design="§3 C11",
+   text="Every string of length 0..4 (thorough 0..5) over {a, é, 😀} and arrays of length 0..5 crossed with every index / pair of slice bounds from [-n-2,n+2] and the non-integer, huge, NaN and infinite values, as literal and computed; reads, stores, freshness of slices, string element store; expected result computed from the law in the statement.",
+   note="For integer-valued floats beyond 2^62 either documented panic class is accepted.",
+   technique="exhaustive sweep of a finite index/slice space against the stated law"),
+ "C12": dict(category="model_checking", design="§3 C12",
+   text="Explicit-state search over map histories: 79 states (ordered key/value lists over 3 keys, 2 values) x ~60 operations incl. iteration with mutation and aliases; every transition replayed on the real evaluator (program = constructing literal + operation) and compared with a reference ordered dictionary; plus all un-deduplicated histories to depth 3 (quick) / 4 (thorough).",
+   note="Canonical state = printed map; hidden backing-array state is covered by the raw histories for <= 3 keys.",
+   technique="explicit-state BFS over a reference model with every transition replayed against the implementation"),
+ "C14": dict(category="fault_enumeration", design="§3 C14",
+   text="For every program of an enumerated family (nestings of loops/calls, endless loops, unbounded recursion, niladic built-ins, tests, handlers with events): one uninterrupted run, then one run per yield k in which the Yielder raises the stop flag inside the k-th Yield; checks yields between effects, no Yield after the flag, 'stopped' result, and effects = exactly the prefix performed before the next evaluation step.",
+   note="pkg/wasm (TinyGo) side not executed. The flag is polled at the start of each evaluation step: the step whose yield raised the flag (and the built-in call it is the last argument of) completes.",
+   technique="exhaustive enumeration of stop points (one per yield) on the real evaluator under a controlled Yielder"),
+ "C15": dict(category="model_checking", design="§3 C15",
+   text="Explicit-state exploration of event histories: every single handler and pair of handlers with every signature shape and 9 body kinds, all event sequences to depth 4 (quick) / 5 (thorough); after every delivery the cumulative trace is compared with the reference interpreter and with the equivalent procedure program run on the real evaluator.",
+   note="Handler bodies come from a menu; browser event loop not executed.",
+   technique="exhaustive enumeration of event sequences with every transition validated against a reference model and a differential procedure program"),
  "C03": dict(category="exploration", design="§3 C03",
    text="Bounded-exhaustive exploration of the input space of lexer.New/Next and parser.Parse on the real code: all strings over a 15-character alphabet to length 4 (quick) / 6 (thorough), all token sequences over a 47-symbol alphabet to length 3/4 (5 over a reduced alphabet) in four layouts, every rune prefix and every single-token deletion/substitution/insertion of ~150 seed programs (thorough: all pairs of edits on the 24 smallest). Every text is judged by a general oracle: no Go panic, no hang (journal+watchdog), result is program xor non-empty error list, every token's offset/line/column recomputed independently from the text and its spelling found there, every error's position exists, is a token start and shows the name the message quotes.",
    note="Small-scope hypothesis: inputs beyond the bounds that are not within two token edits of a seed are not explored. Trusted: Go's utf8/strings for the position oracle.",
